@@ -23,6 +23,12 @@ else iteration count set to 0) with the library's own float32 arithmetic; the
 oracles re-check it on the real edge list before calling (a violated
 precondition is a harness error, never a hang).  ``_randomlySetCrossLinks``
 terminates iff the requested number is <= N1*N2 (the library clamps it).
+In addition every such call runs under a DETERMINISTIC proposal budget
+(``call_bounded``: the random draws of the kernel are counted; the budget is
+25 x the worst-case expected number of proposals, swaps * E^2, which the
+generators bound by 600 in the quick and 4000 in the thorough tier), so
+that a tree in which a loop really does not end fails the clause
+``*_call_terminates`` instead of running into the work-unit timeout.
 """
 import contextlib
 import io
@@ -42,7 +48,8 @@ RULE = ("cases = (operation, input network, parameters, 1..3 pairs of seed "
         "graphs, 0..40 iterations); randomly_rewire_geomodel_I/II/III "
         "(integer line / Manhattan / ring distances, dyadic random metrics, "
         "float32 euclidean grid distances; tolerances 2^-10 .. 1e30; 0..40 "
-        "iterations); RandomlyRewireCrossLinks, RandomlySetCrossLinks and "
+        "iterations with iterations * links^2 bounded); "
+        "RandomlyRewireCrossLinks, RandomlySetCrossLinks and "
         "_sparse (two disjoint unsorted node lists plus untouched nodes; "
         "number / density / null model); set_random_links_by_distance "
         "(SpatialNetwork and GeoNetwork). Non-trivial = the output network "
@@ -59,7 +66,7 @@ ASSUMPTIONS = [
     "say whether it is attained), on float32 euclidean distances with a "
     "relative slack of 1e-6 for the float32 subtraction",
     "'p(l) conserved with inaccuracy eps' is formalised as: the sorted "
-    "vector of link lengths moves by less than iterations*eps in the sup "
+    "vector of link lengths moves by at most iterations*eps in the sup "
     "norm (each accepted swap replaces two lengths by two lengths within "
     "eps of them); models II/III: the same per node (this implies the "
     "documented conservation of the mean link length per node within "
@@ -112,7 +119,8 @@ def check_object(rec, net, tag, n, directed, symmetric=None):
     A = np.asarray(net.adjacency)
     ok = rec.check(A.shape == (n, n) and int(net.N) == n,
                    tag + "_node_count_kept",
-                   "adjacency %s N=%s, expected %d nodes" % (A.shape, net.N, n))
+                   "adjacency %s N=%s, expected %d nodes" % (A.shape, net.N,
+                                                             n))
     if not ok:
         return None
     rec.check(bool(np.isin(A, (0, 1)).all()), tag + "_adjacency_binary",
@@ -122,7 +130,8 @@ def check_object(rec, net, tag, n, directed, symmetric=None):
         symmetric = not directed
     if symmetric:
         rec.check(bool((A == A.T).all()), tag + "_adjacency_symmetric")
-    rec.check(bool(net.directed) == bool(directed), tag + "_directed_flag_kept")
+    rec.check(bool(net.directed) == bool(directed),
+              tag + "_directed_flag_kept")
     B = A != 0
     nnz = int(B.sum())
     nl = nnz if directed else int(np.triu(B | B.T, 1).sum())
@@ -655,7 +664,7 @@ EPS_CHOICES = [2.0 ** -10, 0.125, 0.25, 0.5, 1.0, 1.0 + 2.0 ** -10, 1.5, 2.0,
 def geo_cases(draw, n_max=10, work=600):
     model = draw(st.sampled_from(["I", "II", "III"]))
     pick = draw(st.integers(0, 9))
-    if pick < (7 if model == "III" else 2):
+    if pick < (4 if model == "III" else 2):
         g = draw(regularish_graph(6, n_max))
     elif pick < 9:
         g = draw(moderate_graph(6, n_max))
@@ -1156,18 +1165,19 @@ def _run(gen, oracle):
 
 SUBCHECKS = [
     SubCheck("models", oracle_models, gen=model_cases,
-             quick=(3, 300), thorough=(8, 3500)),
+             quick=(4, 450), thorough=(8, 3500)),
     SubCheck("rewire", oracle_rewire, gen=rewire_cases,
-             quick=(3, 250), thorough=(8, 3000)),
+             quick=(4, 400), thorough=(8, 3000)),
     SubCheck("geomodel", oracle_geomodel,
              run=_run(lambda w: geo_cases(work=w), oracle_geomodel),
-             quick=(4, 300), thorough=(8, 5000)),
+             quick=(4, 600), thorough=(8, 5000)),
     SubCheck("cross_rewire", oracle_cross_rewire,
-             run=_run(lambda w: cross_rewire_cases(work=w), oracle_cross_rewire),
-             quick=(3, 250), thorough=(8, 3000)),
+             run=_run(lambda w: cross_rewire_cases(work=w),
+                      oracle_cross_rewire),
+             quick=(4, 400), thorough=(8, 3000)),
     SubCheck("cross_set", oracle_cross_set,
              run=_run(lambda w: cross_set_cases(), oracle_cross_set),
-             quick=(3, 250), thorough=(8, 3000)),
+             quick=(4, 400), thorough=(8, 3000)),
     SubCheck("by_distance", oracle_by_distance, gen=by_distance_cases,
-             quick=(2, 200), thorough=(8, 1500)),
+             quick=(2, 300), thorough=(8, 1500)),
 ]
